@@ -106,6 +106,51 @@ def retry_facts():
     return e, before, cxxast.src_text(assign, REL)
 
 
+def then_calls(ifnode):
+    inner = [c for c in ifnode.get("inner", []) if isinstance(c, dict)]
+    names = []
+    if len(inner) < 2:
+        return names
+    for x in cxxast.walk(inner[1]):
+        if x.get("kind") in ("CallExpr", "CXXMemberCallExpr", "CXXOperatorCallExpr"):
+            seen_m = seen_d = False
+            for y in cxxast.walk(x):
+                if y.get("kind") == "MemberExpr" and y.get("name") and not seen_m:
+                    names.append(y["name"])
+                    seen_m = True
+                if y.get("kind") == "DeclRefExpr" and not seen_d:
+                    names.append(y.get("referencedDecl", {}).get("name"))
+                    seen_d = True
+    return names
+
+
+def guard(rel, qual, callee, gname, params):
+    """the condition of THE if-statement of `qual` whose then-branch calls `callee`, as a Gallina function of `params`"""
+    fn = cxxast.function_decl(rel, qual)
+    hits = [n for n in cxxast.walk(fn) if n.get("kind") == "IfStmt" and callee in then_calls(n)]
+    # nested ifs: the innermost one decides (an outer if whose then-branch merely contains it is not the guard)
+    inner_hits = [h for h in hits if not any(o is not h and any(d is o for d in cxxast.walk(h)) for o in hits)]
+    if len(inner_hits) != 1:
+        raise cxxast.Untranslatable("%d if-statements of %s guard a call of %s" % (len(inner_hits), qual, callee))
+    cond = [c for c in inner_hits[0].get("inner", []) if isinstance(c, dict)][0]
+    g = cxxast.GExpr()
+    body = g.tr(cond, "bool")
+    extra = [v for v in g.vars if v not in params]
+    if extra or any(t != "bool" for t in g.vars.values()):
+        raise cxxast.Untranslatable("guard of %s in %s mentions %s" % (callee, qual, sorted(g.vars)))
+    return "(* %s: if (%s) ... %s(...) *)\nDefinition %s %s : bool :=\n  %s." % (
+        rel, clean(cxxast.src_text(cond, rel)), callee, gname, " ".join("(%s : bool)" % v for v in params), body)
+
+
+GUARDS = [
+    ("muduo/net/Connector.cc", "Connector::startInLoop", "connect", "Connector_start_guard", ["connect"], "connect"),
+    ("muduo/net/Connector.cc", "Connector::retry", "runAfter", "Connector_retry_guard", ["connect"], "connect"),
+    ("muduo/net/Connector.cc", "Connector::handleWrite", "newConnectionCallback_", "Connector_handover_guard", ["connect"], "connect"),
+    ("muduo/net/TcpClient.cc", "TcpClient::removeConnection", "restart", "TcpClient_reconnect_guard", ["retry", "connect"],
+     "(retry && connect)%bool"),
+]
+
+
 def main():
     out = ["(* GENERATED by lib/gen_C12.py from %s -- do not edit *)" % cxxast.REPO,
            "From Coq Require Import ZArith List Bool.", "From Muduo Require Gen_Consts.", "Import ListNotations.",
@@ -145,6 +190,15 @@ def main():
         out.append("(* FALLBACK: retry update not translated; committed twin used *)")
     out.append("Definition Connector_retry_next (d : Z) : Z := %s." % e)
     out.append("Definition Connector_retry_arms_before_update : bool := %s." % ("true" if before else "false"))
+    out.append("")
+    out.append("(* the guards of the anchored decisions (DESIGN 4.1); C12_Hyg.G_guards links them to the tests of the model *)")
+    for rel, qual, callee, gname, params, twin in GUARDS:
+        try:
+            out.append(guard(rel, qual, callee, gname, params))
+        except Exception as ex:  # noqa
+            msgs.append("FALLBACK %s (%s)" % (gname, clean(str(ex))))
+            out.append("(* FALLBACK: guard not translated; committed twin used *)")
+            out.append("Definition %s %s : bool :=\n  %s." % (gname, " ".join("(%s : bool)" % v for v in params), twin))
     txt = "\n".join(out) + "\n"
     path = os.path.join(cxxast.ROOT, "coq/Gen_C12.v")
     old = open(path).read() if os.path.exists(path) else None
